@@ -147,6 +147,54 @@ func rfSubstituteIndex(p *packages.Package, fn string) string {
 	return text
 }
 
+// rfCallsMethod reports whether the function body calls a method of the given name (x.Name(...)).
+func rfCallsMethod(fd *ast.FuncDecl, name string) bool {
+	found := false
+	ast.Inspect(fd.Body, func(n ast.Node) bool {
+		if call, ok := n.(*ast.CallExpr); ok {
+			if sel, ok := call.Fun.(*ast.SelectorExpr); ok && sel.Sel.Name == name {
+				found = true
+			}
+		}
+		return !found
+	})
+	return found
+}
+
+// rfGuardOfCall returns the text of the condition of the innermost `if` whose body calls pkg.fn.
+func rfGuardOfCall(p *packages.Package, fd *ast.FuncDecl, pkg, fn string) string {
+	text := ""
+	var walk func(n ast.Node, guard string)
+	walk = func(n ast.Node, guard string) {
+		ast.Inspect(n, func(m ast.Node) bool {
+			switch x := m.(type) {
+			case *ast.IfStmt:
+				if x.Init != nil {
+					walk(x.Init, guard)
+				}
+				walk(x.Body, rfExprText(p, x.Cond))
+				if x.Else != nil {
+					walk(x.Else, guard)
+				}
+				return false
+			case *ast.CallExpr:
+				if sel, ok := x.Fun.(*ast.SelectorExpr); ok && sel.Sel.Name == fn {
+					if id, ok := sel.X.(*ast.Ident); ok && id.Name == pkg && text == "" {
+						text = guard
+					}
+				}
+			}
+			return true
+		})
+	}
+	walk(fd.Body, "")
+	return text
+}
+
+func rfLeanStr(s string) string {
+	return "\"" + strings.ReplaceAll(strings.ReplaceAll(s, "\\", "\\\\"), "\"", "\\\"") + "\""
+}
+
 func rfBool(b bool) string {
 	if b {
 		return "true"
@@ -199,6 +247,18 @@ func init() {
 		lf.raw("/-- cache.reloadCacheLoadBottom clamps the cached count when it is `> limit` (strict) or `>= limit` -/\n")
 		lf.nat("reloadBottomLimit", lim)
 		lf.raw("def reloadBottomStrict : Bool := " + rfBool(strict) + "\n")
+		lf.raw("\n/-! the request layer: how a hit of the name lookup is confirmed before a record is modified / delete-marked -/\n")
+		lf.nat("FILE_MARKED", constInt(pt, "FILE_MARKED"))
+		lf.nat("FILE_SOLVED", constInt(pt, "FILE_SOLVED"))
+		pcm := l.load("cmsys")
+		lf.raw("/-- cmsys.GetRecord compares the record found with the requested name (`filename.Eq(&fhdr.Filename)`) -/\n")
+		lf.raw("def getRecordConfirmsName : Bool := " + rfBool(rfCallsMethod(rfFuncDecl(pcm, "GetRecord"), "Eq")) + "\n")
+		pb := l.load("bbs")
+		guard := rfGuardOfCall(pb, rfFuncDecl(pb, "DeleteArticles"), "ptt", "DeleteArticles")
+		lf.raw("/-- the condition under which bbs.DeleteArticles calls ptt.DeleteArticles -/\n")
+		lf.raw("def deleteConfirmExpr : String := " + rfLeanStr(guard) + "\n")
+		lf.raw("def deleteConfirmsArticleID : Bool := " + rfBool(guard == "articleID == articleSummary.ArticleID") + "\n")
+		lf.raw("def deleteConfirmsCreateTimeOnly : Bool := " + rfBool(guard != "articleID == articleSummary.ArticleID" && strings.Contains(strings.ToLower(guard), "createtime") && !strings.Contains(guard, "ArticleID")) + "\n")
 		lf.write(out)
 	})
 }
